@@ -128,6 +128,8 @@ func (s *State) mapBaseValue(mc *MapContents, k *Term) Value {
 func (fr *Frame) lookup(x *ssa.Lookup) Value {
 	s := fr.st
 	switch m := fr.get(x.X).(type) {
+	case *ConstMapV:
+		return s.constMapLookup(m, fr.get(x.Index), x.CommaOk, fr.loc(x))
 	case *MapV:
 		var present *Term
 		var val Value
